@@ -10,7 +10,7 @@ mod="$root/$1"; pkg="$2"; tf="$3"; run="$4"
 tmp=$(mktemp -d /tmp/verif-ov.XXXXXX); trap 'rm -rf "$tmp"' EXIT
 printf '{"Replace": {"%s/%s/zz_verif_replay_test.go": "%s"}}\n' "$mod" "$pkg" "$(readlink -f "$tf")" > "$tmp/ov.json"
 git -C "$root" status --porcelain --untracked-files=all | sort > "$tmp/before"
-cd "$mod" && go test -overlay "$tmp/ov.json" -vet=off -timeout ${OVERLAY_TIMEOUT:-300s} -count=1 -run "$run" -v "./$pkg" 2>&1 | grep -E '^\s+zz_verif_replay_test|^(ok|FAIL|---|panic:)|REPLAY' | cut -c1-300
+cd "$mod" && go test -overlay "$tmp/ov.json" -vet=off -timeout ${OVERLAY_TIMEOUT:-60s} -count=1 -run "$run" -v "./$pkg" 2>&1 | grep -E '^\s+zz_verif_replay_test|^(ok|FAIL|---|panic:)|REPLAY' | cut -c1-300
 rc=${PIPESTATUS[0]}
 git -C "$root" status --porcelain --untracked-files=all | sort | comm -13 "$tmp/before" - > "$tmp/new"
 while read -r st f; do
